@@ -1168,7 +1168,7 @@ func (r logsResource) Paginate(ctx context.Context, q common.PaginatedQuery[any]
 
 func (s *SimStore) Logs() common.PaginatedResource[ledger.Log, any] {
 	if s.w.realSQL {
-		return realFirst[ledger.Log, any]{real: s.DefaultStoreAdapter.Logs(), model: logsResource{s}, w: s.w}
+		return realFirst[ledger.Log, any]{real: s.DefaultStoreAdapter.Logs(), model: logsResource{s}, w: s.w, l: &s.l}
 	}
 	return logsResource{s}
 }
@@ -1218,7 +1218,7 @@ func (r txResource) Paginate(ctx context.Context, q common.PaginatedQuery[any]) 
 
 func (s *SimStore) Transactions() common.PaginatedResource[ledger.Transaction, any] {
 	if s.w.realSQL {
-		return realFirst[ledger.Transaction, any]{real: s.DefaultStoreAdapter.Transactions(), model: txResource{s}, w: s.w}
+		return realFirst[ledger.Transaction, any]{real: s.DefaultStoreAdapter.Transactions(), model: txResource{s}, w: s.w, l: &s.l}
 	}
 	return txResource{s}
 }
@@ -1261,7 +1261,7 @@ func (r acctResource) Paginate(ctx context.Context, q common.PaginatedQuery[any]
 
 func (s *SimStore) Accounts() common.PaginatedResource[ledger.Account, any] {
 	if s.w.realSQL {
-		return realFirst[ledger.Account, any]{real: s.DefaultStoreAdapter.Accounts(), model: acctResource{s}, w: s.w}
+		return realFirst[ledger.Account, any]{real: s.DefaultStoreAdapter.Accounts(), model: acctResource{s}, w: s.w, l: &s.l}
 	}
 	return acctResource{s}
 }
@@ -1276,6 +1276,10 @@ func (r unsupportedAgg) Count(ctx context.Context, q common.ResourceQuery[ledger
 }
 
 func (s *SimStore) AggregatedBalances() common.Resource[ledger.AggregatedVolumes, ledger.GetAggregatedVolumesOptions] {
+	if s.w.realSQL {
+		// no model behind it: the real handler decides (feature refusals come before any SQL); what it sends is audited
+		return realFirstRes[ledger.AggregatedVolumes, ledger.GetAggregatedVolumesOptions]{real: s.DefaultStoreAdapter.AggregatedBalances(), model: unsupportedAgg{s}, w: s.w, l: &s.l}
+	}
 	return unsupportedAgg{s}
 }
 
@@ -1292,5 +1296,8 @@ func (r unsupportedVol) Paginate(ctx context.Context, q common.PaginatedQuery[le
 }
 
 func (s *SimStore) Volumes() common.PaginatedResource[ledger.VolumesWithBalanceByAssetByAccount, ledger.GetVolumesOptions] {
+	if s.w.realSQL {
+		return realFirst[ledger.VolumesWithBalanceByAssetByAccount, ledger.GetVolumesOptions]{real: s.DefaultStoreAdapter.Volumes(), model: unsupportedVol{s}, w: s.w, l: &s.l}
+	}
 	return unsupportedVol{s}
 }
